@@ -45,6 +45,7 @@ type Gen struct {
 	seenLeader bool
 	former   []int64 // keys that have lost the leader position
 	okTix    []Op // accepted ticket-bearing ops whose very ticket (same string: same payload, exp and key) is presented again later
+	okLong   []Op // the long-lived ones among them (not votes), kept apart so that the many vote tickets do not push them out before a rotation completes
 	stats    map[string]int
 }
 
@@ -121,7 +122,7 @@ func NewGen(c *Chain, profile string, r *rand.Rand) *Gen {
 }
 
 func (g *Gen) leaderTicket() Ticket {
-	if g.chance(0.2) { // long-lived: still unexpired after a key rotation or many blocks (replayed by replayTicket)
+	if g.chance(0.2) || (g.profile == "ovm" && g.chance(0.4)) { // long-lived: still unexpired after a key rotation or many blocks (replayed by replayTicket)
 		return Ticket{Signer: int64(g.c.LeaderKey()), Exp: g.c.Time + int64(3000+g.r.Intn(20000))}
 	}
 	return Ticket{Signer: int64(g.c.LeaderKey()), Exp: g.c.Time + int64(1+g.r.Intn(1000))}
@@ -135,7 +136,7 @@ func (g *Gen) replayTicket() Op {
 	// prefer an unexpired ticket signed by a key that has since lost the leader position (after a rotation): it must be refused now
 	if g.chance(0.6) {
 		lead := int64(g.c.LeaderKey())
-		for _, q := range g.okTix {
+		for _, q := range append(append([]Op{}, g.okLong...), g.okTix...) {
 			if q.Kind != "VOTE" && q.Tk.Signer != lead && q.Tk.Exp > g.c.Time {
 				o = q
 				g.stats["ticket_replayed_after_rotation"]++
@@ -930,6 +931,14 @@ func (g *Gen) genSubWager() Op {
 			g.stats["swag_main_whole_balance"]++
 		}
 	}
+	if g.chance(0.04) && o.Amount.Sign() > 0 {
+		// a negative main-account part: the subaccount would pay more than the bet costs and the difference would land, free, in the
+		// owner's account (the two parts still add up to the bet amount)
+		extra := big.NewInt(1 + g.r.Int63n(1+o.Amount.Int64()/2))
+		o.MainDed = new(big.Int).Neg(extra)
+		o.SubDed = new(big.Int).Add(o.Amount, extra)
+		g.stats["swag_negative_main_part"]++
+	}
 	if g.chance(0.03) {
 		o.MainDed.Add(o.MainDed, big.NewInt(1)) // does not add up
 	}
@@ -1219,6 +1228,62 @@ func (g *Gen) grantTriangle() (Op, bool) {
 	return Op{Kind: "MADD", Signer: g.user(), Tk: lt(), UID: uid, Start: g.c.Time - 5, End: g.c.Time + 60000, Status: 1, Odds: odds}, true
 }
 
+// subHouseWins: a subaccount puts EVERYTHING it can spend into a house deposit on a fresh market, a bettor loses against it, the result
+// is declared: at settlement the house profit is forwarded from the subaccount to its owner while the subaccount holds nothing but what
+// the settlement itself returns (the order of payments and hooks matters), and the ledger must come out exact (C05, C11, C04).
+func (g *Gen) subHouseWins() (Op, bool) {
+	cfg := g.c.Cfg
+	owners := g.subOwners()
+	if len(owners) == 0 || !cfg.Subaccount.DepositEnabled {
+		return Op{}, false
+	}
+	o := pick(g.r, owners)
+	if o < 0 || o >= int64(len(g.c.Acc)) {
+		return Op{}, false
+	}
+	ctx := g.c.Ctx()
+	sa, ok := g.c.App.SubaccountKeeper.GetSubaccountByOwner(ctx, g.c.Acc[o].Addr)
+	if !ok {
+		return Op{}, false
+	}
+	sum, ok := g.c.App.SubaccountKeeper.GetAccountSummary(ctx, sa)
+	if !ok {
+		return Op{}, false
+	}
+	av := sum.Available()
+	minDep := cfg.House.MinDeposit.Int64()
+	minBet := cfg.Bet.Constraints.MinAmount.Int64()
+	if !av.IsInt64() || av.Int64() < minDep || av.Int64() < 4*minBet || minBet > cfg.Balance/8 {
+		return Op{}, false
+	}
+	amt := av.Int64() // everything
+	uid := g.nextMkt
+	g.nextMkt++
+	odds := []int64{uid * 10, uid*10 + 1}
+	lt := func() Ticket { return Ticket{Signer: int64(g.c.LeaderKey()), Exp: g.c.Time + 4000} }
+	ky := func(x int64) Kyc { return Kyc{Ignore: false, Approved: true, ID: x} }
+	b := g.user()
+	var all []OddsMult
+	for _, od := range odds {
+		all = append(all, OddsMult{Odds: od, Mult: decFromStr("1")})
+	}
+	ov := new(big.Int).Mul(big.NewInt(2), decFromStr("1")) // odds 2: the promised winnings equal the stake
+	stake := minBet
+	if g.chance(0.5) && av.Int64() > 8*minBet {
+		stake = minBet + g.r.Int63n(av.Int64()/4-minBet+1)
+	}
+	seq := []Op{
+		{Kind: "SDEP", Signer: o, Tk: lt(), Mkt: uid, Amount: bi(amt), Ky: ky(o), Depositor: -1},
+		{Kind: "WAG", Signer: b, Tk: lt(), BetUID: g.nextBet, Amount: bi(stake), SelMkt: uid, SelOdds: odds[0], OddsVal: ov,
+			Mult: decFromStr("1"), Ky: ky(b), OddsType: 1, AllOdds: all},
+		{Kind: "MRES", Signer: g.user(), Tk: lt(), UID: uid, Rts: g.c.Time, Status: 5, Winners: []int64{odds[1]}},
+	}
+	g.nextBet++
+	g.pending = append(g.pending, seq...)
+	g.stats["sub_house_wins_script"]++
+	return Op{Kind: "MADD", Signer: g.user(), Tk: lt(), UID: uid, Start: g.c.Time - 5, End: g.c.Time + 60000, Status: 1, Odds: odds}, true
+}
+
 func (g *Gen) HasPending() bool { return len(g.pending) > 0 }
 
 // NextTx draws one transaction according to the profile.
@@ -1237,6 +1302,11 @@ func (g *Gen) NextTx() Op {
 	}
 	if (g.profile == "tiny" && g.chance(0.03)) || ((g.profile == "bet" || g.profile == "sub") && g.chance(0.012)) {
 		if o, ok := g.longShot(); ok {
+			return o
+		}
+	}
+	if g.profile == "sub" && g.chance(0.02) {
+		if o, ok := g.subHouseWins(); ok {
 			return o
 		}
 	}
@@ -1316,6 +1386,15 @@ func (g *Gen) Observe(o Op, res string) {
 			// the leader has just been replaced: the first transaction of the next block carries a fresh ticket of the replaced
 			// leader (never presented before).  It must be refused - by every replica, whatever it simulated beforehand (C06, C15).
 			g.former = append(g.former, g.lastLeader)
+			// ... and an ACCEPTED ticket of the replaced leader that has not expired yet is presented again, byte for byte: what was
+			// verified once under the old key set must be verified again under the new one
+			for _, q := range append(append([]Op{}, g.okLong...), g.okTix...) {
+				if q.Kind == "MUPD" && q.Tk.Signer == g.lastLeader && q.Tk.Exp > g.c.Time+10 {
+					g.pending = append(g.pending, q)
+					g.stats["accepted_ticket_replayed_right_after_rotation"]++
+					break
+				}
+			}
 			for _, m := range g.markets {
 				if !m.resolved {
 					g.pending = append(g.pending, Op{Kind: "MUPD", Signer: g.user(), Tk: Ticket{Signer: g.lastLeader, Exp: g.c.Time + 5000},
@@ -1351,6 +1430,12 @@ func (g *Gen) Observe(o Op, res string) {
 	}
 	switch o.Kind {
 	case "MUPD", "VOTE", "DEP":
+		if o.Tk.Signer >= 0 && o.Kind != "VOTE" && o.Tk.Exp > g.c.Time+2000 {
+			g.okLong = append(g.okLong, o)
+			if len(g.okLong) > 20 {
+				g.okLong = g.okLong[1:]
+			}
+		}
 		if o.Tk.Signer >= 0 {
 			g.okTix = append(g.okTix, o)
 			if len(g.okTix) > 40 {
